@@ -108,6 +108,9 @@ Definition with_svc (s : port) (v : option (pkt * Q)) : port :=
 Definition with_bytes (s : port) (b : Z) : port :=
   {| pnow := pnow s; pq := pq s; pstarted := pstarted s; psvc := psvc s; pbytes := b;
      precv := precv s; pdrop := pdrop s; pavg := pavg s |}.
+Definition with_started (s : port) : port :=
+  {| pnow := pnow s; pq := pq s; pstarted := true; psvc := psvc s; pbytes := pbytes s;
+     precv := precv s; pdrop := pdrop s; pavg := pavg s |}.
 Definition with_now (s : port) (t : Q) : port :=
   {| pnow := t; pq := pq s; pstarted := pstarted s; psvc := psvc s; pbytes := pbytes s;
      precv := precv s; pdrop := pdrop s; pavg := pavg s |}.
@@ -122,17 +125,26 @@ Definition server_get (s : port) : option port :=
   | None => None
   end.
 
+(* what put() writes into packet.perhop_time *)
+Definition stamp_outs (c : pcfg) (s : port) : list pout :=
+  match c_stamp c with Some k => [OStamp k (pnow s)] | None => [] end.
+
+(* the packet is enqueued: byte_size += size; store.put(packet) *)
+Definition put_accept (s : port) (p : pkt) (a : Q) : port :=
+  {| pnow := pnow s; pq := sq_put fifo_push (pnow s) p (pq s); pstarted := pstarted s; psvc := psvc s;
+     pbytes := (pbytes s + psize p)%Z; precv := (precv s + 1)%Z; pdrop := pdrop s; pavg := a |}.
+
+(* the packet is refused: packets_dropped += 1 *)
+Definition put_refuse (s : port) (a : Q) : port :=
+  {| pnow := pnow s; pq := pq s; pstarted := pstarted s; psvc := psvc s; pbytes := pbytes s;
+     precv := (precv s + 1)%Z; pdrop := (pdrop s + 1)%Z; pavg := a |}.
+
 Definition port_put (c : pcfg) (s : port) (p : pkt) (u : option Q) : option (port * list pout) :=
   match c_policy c s p u with
   | None => None
   | Some (refuse, a) =>
-      let st := match c_stamp c with Some k => [OStamp k (pnow s)] | None => [] end in
-      if refuse then
-        Some ({| pnow := pnow s; pq := pq s; pstarted := pstarted s; psvc := psvc s; pbytes := pbytes s;
-                 precv := (precv s + 1)%Z; pdrop := (pdrop s + 1)%Z; pavg := a |}, st ++ [ODrop p])
-      else
-        Some ({| pnow := pnow s; pq := sq_put fifo_push (pnow s) p (pq s); pstarted := pstarted s; psvc := psvc s;
-                 pbytes := (pbytes s + psize p)%Z; precv := (precv s + 1)%Z; pdrop := pdrop s; pavg := a |}, st)
+      if refuse then Some (put_refuse s a, stamp_outs c s ++ [ODrop p])
+      else Some (put_accept s p a, stamp_outs c s)
   end.
 
 (* the server's share of `byte_size -= packet.size` when there is no transmission delay *)
@@ -159,8 +171,7 @@ Definition port_act (c : pcfg) (s : port) (a : paction) : option (port * list po
   | PPut p u => port_put c s p u
   | PInit =>
       if pstarted s then None
-      else match server_get {| pnow := pnow s; pq := pq s; pstarted := true; psvc := psvc s; pbytes := pbytes s;
-                               precv := precv s; pdrop := pdrop s; pavg := pavg s |} with
+      else match server_get (with_started s) with
            | Some s' => Some (s', [])
            | None => None
            end
